@@ -199,6 +199,12 @@ impl Report {
 
     /// Record a violation; it is matched against KNOWN_FINDINGS.
     pub fn violation(&self, v: Violation) {
+        if v.property != self.property {
+            // a shared exploration serves several properties; each check only
+            // reports its own
+            self.count(&format!("violations_of_{}_seen_here(reported_by_its_own_check)", v.property), 1);
+            return;
+        }
         let case = v.case_hash();
         let m = self.findings.iter().find(|f| {
             f.property == v.property
